@@ -9,9 +9,9 @@ KINDS = gen.KINDS
 THEOREMS_CORE = [("Sylvia.Thm.C06", "C06." + t) for t in ["ep_iff", "override_local", "override_removes", "ep_nodup"]]
 THEOREMS_CLOSED = [("Sylvia.Thm.C06Closed", "C06.ep_iff_closed"), ("Sylvia.Thm.C06Closed", "C06.ep_forwards"),
                    ("Sylvia.Thm.Obl.Override", "Obl.override_table_faithful"),
-                   ("Sylvia.Thm.Obl.Tables", "Obl.extraction_complete"), ("Sylvia.Thm.Obl.Tables", "Obl.epDefaults_documented"),
-                   ("Sylvia.Thm.Obl.Tables", "Obl.msgTypeNew_documented"), ("Sylvia.Thm.Obl.Tables", "Obl.ctx_tables_agree"),
-                   ("Sylvia.Thm.Obl.Tables", "Obl.epName_documented"), ("Sylvia.Thm.Obl.Tables", "Obl.accessor_documented")]
+                   ("Sylvia.Thm.Obl.Complete.C06", "Obl.extraction_complete_C06"), ("Sylvia.Thm.Obl.T.epDefaults_documented", "Obl.epDefaults_documented"),
+                   ("Sylvia.Thm.Obl.T.msgTypeNew_documented", "Obl.msgTypeNew_documented"), ("Sylvia.Thm.Obl.T.ctx_tables_agree", "Obl.ctx_tables_agree"),
+                   ("Sylvia.Thm.Obl.T.epName_documented", "Obl.epName_documented"), ("Sylvia.Thm.Obl.T.accessor_documented", "Obl.accessor_documented")]
 EP_NAME = {"exec": "execute", "query": "query", "instantiate": "instantiate", "migrate": "migrate", "reply": "reply", "sudo": "sudo"}
 ACCESSOR = {"exec": "ContractExec", "query": "ContractQuery", "sudo": "ContractSudo", "instantiate": "Instantiate", "migrate": "Migrate"}
 
@@ -83,7 +83,7 @@ def run(ctx):
                         "what `msg.dispatch` itself does is C02/C03's subject; here only that the entry point calls it on the message of its own kind with the context values"]
     problems, _ = translate.regenerate()
     core_ok = c.prove(ctx, ["Sylvia.Thm.C06"], THEOREMS_CORE)
-    closed_ok = c.prove(ctx, ["Sylvia.Thm.Obl.Tables", "Sylvia.Thm.Obl.Override", "Sylvia.Thm.C06Closed"], THEOREMS_CLOSED)
+    closed_ok = c.prove(ctx, ["Sylvia.Thm.Obl.Override", "Sylvia.Thm.C06Closed"], THEOREMS_CLOSED)
 
     cfgs = configs(ctx)
     progs = []
